@@ -6,9 +6,11 @@ wt=/tmp/vs-$name; t=/tmp/vs-$name-t
 rm -rf $t; mkdir -p $t
 git -C /repo worktree remove --force $wt 2>/dev/null
 git -C /repo worktree add --detach $wt HEAD -q || exit 3
-git -C $wt apply $d/patch.diff || { echo "{\"apply\": false}" > $d/verify.json; git -C /repo worktree remove --force $wt; exit 3; }
-( cd $d && timeout 600 bash ./run.sh /repo/include > $t/demo_unchanged.out 2>&1 ); rc0=$?
-( cd $d && timeout 600 bash ./run.sh $wt/include > $t/demo_changed.out 2>&1 ); rc1=$?
+git -C $wt apply $d/patch.diff 2>/dev/null || ( cd $wt && git checkout -q -- . && patch -p1 -s --fuzz=3 --no-backup-if-mismatch < $d/patch.diff ) || { echo "{\"apply\": false}" > $d/verify.json; git -C /repo worktree remove --force $wt; exit 3; }
+# every demo / test runs in its own network namespace (loopback up): fixed ports cannot clash with other jobs on this machine
+NS="unshare -rn sh -c"
+( cd $d && timeout 900 $NS "ip link set lo up; exec bash ./run.sh /repo/include" > $t/demo_unchanged.out 2>&1 ); rc0=$?
+( cd $d && timeout 900 $NS "ip link set lo up; exec bash ./run.sh $wt/include" > $t/demo_changed.out 2>&1 ); rc1=$?
 tests=$(python3 -c "
 import json,re
 m=json.load(open('$d/meta.json'))
@@ -25,7 +27,7 @@ for tn in $tests; do
   src=$(find $wt/tests -name "$tn.cpp" -size +0 | head -1)
   [ -z "$src" ] && { res="$res\"$tn\": \"source not found\","; continue; }
   if g++ -std=c++17 -O1 -DNDEBUG -DIORA_CORE_SHARED -DIORA_TEST_RESOURCE_DIR=\"$wt/tests\" -I$wt/include -I$wt/tests $src -o $t/$tn /usr/lib/libCatch2WithMain.a $core -Wl,-rpath,$rp -lssl -lcrypto -lpthread > $t/$tn.build 2>&1; then
-    ( cd $wt/tests && timeout 900 $t/$tn > $t/$tn.out 2>&1 ); r=$?
+    ( cd $wt/tests && timeout 900 $NS "ip link set lo up; exec $t/$tn" > $t/$tn.out 2>&1 ); r=$?
     res="$res\"$tn\": \"rc=$r $(tail -3 $t/$tn.out | tr -d '\"\n' | cut -c1-120)\","
   else
     res="$res\"$tn\": \"BUILD FAILED\","
